@@ -69,6 +69,8 @@
 #endif
 
 #include "vg_ring.h"
+int vg_offbits, vg_offlow, vg_code;   /* ghosts: offset-tree symbol, its low bits, the command symbol */
+size_t vg_count;                      /* ghost: count argument copy_from_history was called with */
 int vg_offset;      /* ghost: the value copy_from_history obtained from read_offset_code (woven ghost assignment) */
 static size_t vg_p0, vg_l0;
 static unsigned vg_n0;
